@@ -21,6 +21,10 @@ FLOORS = {"quick": (100000000, 500), "thorough": (10000000000, 500)}
 
 
 def run(tier, seed, replay):
+    if replay is not None:
+        # a replay re-executes one case: the coverage floors do not apply
+        global FLOORS
+        FLOORS = {"quick": (1, 1), "thorough": (1, 1)}
     rep = vcommon.Report("C04", level="exploration",
                          rule="evaluation = one (cast, source bit pattern) execution or one (variant shape, case, slot, width) check; distinct = cast pairs x widths, emitted cast trees, variant shapes")
     _abiinterp.run_bin(rep, "c04", tier, seed, replay, timeout=900 if tier == "quick" else 5400, miri_shard=(tier == "thorough"))
